@@ -185,6 +185,15 @@ func (e *Engine) invoke(st *State, fr *Frame, recv Val, method string, args []Va
 			}
 		}
 		e.nonNilUnlessError(st, ret)
+		if hook := e.note(pkg.Func("vc_hook_iface_" + iname + "_done")); hook != nil && !st.spec {
+			// call-trace hook that also sees the results
+			e.pendingParent = fr
+			hs := e.execFunc(st, hook, append(append([]Val{}, args...), ret...), nil, fr.depth+1)
+			if len(hs) != 1 {
+				fail("hook %s must be straight-line", hook.Name())
+			}
+			st = hs[0].st
+		}
 		if ens := e.note(pkg.Func("vc_iface_" + iname + "_ensures")); ens != nil && !st.spec {
 			// assumed contract of an environment / dependency method
 			st.assumeT(e.evalContract(st, ens, append(append([]Val{}, args...), ret...), true))
@@ -467,6 +476,14 @@ func (e *Engine) libCall(st *State, fr *Frame, name string, args []Val, c *ssa.C
 		child := IfaceSym{ID: UF("ctxChild", 64, pc.ID), T: pc.T}
 		st.assumeT(Not(Eq(child.ID, BVu(0, 64))))
 		return one(child, FuncSym{ID: Sym(fresh("cancelfn"), 64), Name: "cancel"})
+	case "encoding/json.Marshal":
+		// library contract (assumed): for the value types used here Marshal succeeds or reports an error of a nested
+		// marshaler; the bytes are a fresh, non-empty slice. What is handed to it is checked by the callers' contracts.
+		out := e.sliceOfText(st, []Piece{{K: "opaque", ID: -9}}, false)
+		st.assumeT(SLt(BVu(0, 64), out.Len))
+		return one(out, ErrV{NonNil: Sym(fresh("jsonerr"), 0), ID: Sym(fresh("jsonerrid"), 64)})
+	case "(time.Time).String":
+		return one(e.sliceOfText(st, []Piece{{K: "opaque", ID: -10}}, true))
 	case "time.Now":
 		return one(TimeV{Sec: Sym(fresh("now"), 64)})
 	case "(time.Time).UTC":
